@@ -115,3 +115,4 @@ add("C18.caps","VH_c18_caps",API,["apiutil/c18.go"],expect_reach=["end"],bounds=
 C18S="table.NewAPIPolicyFromTableStruct -> newStatementFromApiStruct for a statement: "
 add("C18.statement_actions","VH_c18_statement_roundtrip",SRV,sc+["server/c18.go"],expect_reach=["end"],pins={"aspath_len_op":1,"community_count_op":0,"origin_eq":0,"set_origin":0},bounds=C18S+"3 dispositions x MED action from a listed set of 8 texts x AS prepend (none / 3 texts x symbolic repeat) x symbolic LOCAL_PREF action and numeric conditions; origin fields and comparison operators fixed")
 add("C18.statement_conditions","VH_c18_statement_roundtrip",SRV,sc+["server/c18.go"],expect_reach=["end"],pins={"disposition":1,"med":0,"prepend_as":0},bounds=C18S+"AS_PATH length and community count conditions (4 operators each x symbolic value) x ORIGIN condition (4) x ORIGIN action (4) x symbolic LOCAL_PREF / MED conditions; other actions fixed")
+add("C17.server_rtc","VH_c17_server_rtc",SRV,sc+["server/c17.go"],{"params":{"steps":3},"unwind":2200},{"params":{"steps":4},"unwind":2200},expect_reach=["advertised","withheld"],fixed_clock=True,bounds="real BgpServer.handleFSMMessage/processRTCMembership: one VPN route with one target learned before or after a history of 3 (quick) / 4 membership announcements/withdrawals from an RTC peer (target of the route or an unrelated one, 2 origin AS values)")
